@@ -110,9 +110,11 @@ class error_999_visitor(pyx12.error_visitor.error_visitor):
             for (err_cde, err_str, bad_value) in elem.errors:
                 # Ugly
                 if 'ISA' in err_str:
-                    err_codes.append(isa_ele_err_map[elem.ele_pos])
+                    if elem.ele_pos in isa_ele_err_map:
+                        err_codes.append(isa_ele_err_map[elem.ele_pos])
                 elif 'IEA' in err_str:
-                    err_codes.append(iea_ele_err_map[elem.ele_pos])
+                    if elem.ele_pos in iea_ele_err_map:
+                        err_codes.append(iea_ele_err_map[elem.ele_pos])
         # return unique codes
         return list(set(err_codes))
 
@@ -261,9 +263,11 @@ class error_999_visitor(pyx12.error_visitor.error_visitor):
             for (err_cde, err_str, bad_value) in elem.errors:
                 # Ugly
                 if 'ST' in err_str:
-                    err_codes.append(st_ele_err_map[elem.ele_pos])
+                    if elem.ele_pos in st_ele_err_map:
+                        err_codes.append(st_ele_err_map[elem.ele_pos])
                 elif 'SE' in err_str:
-                    err_codes.append(se_ele_err_map[elem.ele_pos])
+                    if elem.ele_pos in se_ele_err_map:
+                        err_codes.append(se_ele_err_map[elem.ele_pos])
         # return unique codes
         ret = list(set(err_codes))
         ret.sort()
